@@ -194,6 +194,14 @@ def run(ctx, replay=None):
         jobs.append(dict(kind='pair', rec_id=rid, fname=fname, area_json=a, st_json=st, cell=list(cell), new_obj=new_obj, want=['C06']))
         rid += 1
     oc.run_obs_part(ctx, 'pairs', jobs, PREFIX)
+    # large views (beyond VisTable): the C06 predicates on the observation itself
+    jobs = []
+    big_areas = [[[-10, 0], [-5, 5]], [[-12, 0], [-6, 6]], [[-6, 0], [-7, 7]], [[-8, 0], [-6, 6]], [[-14, 0], [-7, 7]], [[-6, 0], [-3, 3]], [[-8, 0], [-4, 4]]]
+    for k in range(120 if ctx.quick else 3000):
+        h, w = rng.randint(6, 15), rng.randint(6, 15)
+        st = obs.random_state(rng, h, w, p_opaque=rng.choice([0.05, 0.15, 0.3]))
+        jobs.append(dict(kind='obs', rec_id=k, fname=rng.choice(['partially_occluded', 'raytracing']), area_json=rng.choice(big_areas), st_json=st, want=['C06']))
+    oc.run_obs_part(ctx, 'large_views', jobs, PREFIX)
     # stochastic variant: bounds
     jobs = []
     for k in range(200 if ctx.quick else 5000):
